@@ -491,38 +491,54 @@ func (v Value) opMod(b Value) Value {
 		return Value{t: untypedInt, num: float64(int(v.num) % int(b.num))}
 	}
 }
+
+// shiftCount is the count of a shift the way Go takes it: it is never reduced to the
+// width of the left operand (a count of at least that width shifts every bit out)
+// and a negative count panics.
+func shiftCount(b Value) uint {
+	switch {
+	case b.num < 0:
+		panic("negative shift amount")
+	case b.num >= 64:
+		return 64
+	}
+	return uint(b.num)
+}
+
 func (v Value) opBitLsh(b Value) Value {
 	t := v.t // a shift keeps the type of its left operand
+	n := shiftCount(b)
 	switch t {
 	case TypeFloat64:
-		return Value{t: t, num: float64(int(v.num) << int(b.num))}
+		return Value{t: t, num: float64(int(v.num) << n)}
 	case TypeInt32:
-		return Value{t: t, num: float64(int32(v.num) << int32(b.num))}
+		return Value{t: t, num: float64(int32(v.num) << n)}
 	case TypeUint32:
-		return Value{t: t, num: float64(uint32(v.num) << uint32(b.num))}
+		return Value{t: t, num: float64(uint32(v.num) << n)}
 	case TypeInt8:
-		return Value{t: t, num: float64(int8(v.num) << int8(b.num))}
+		return Value{t: t, num: float64(int8(v.num) << n)}
 	case TypeUint8:
-		return Value{t: t, num: float64(byte(v.num) << byte(b.num))}
+		return Value{t: t, num: float64(byte(v.num) << n)}
 	default:
-		return Value{t: untypedInt, num: float64(int(v.num) << int(b.num))}
+		return Value{t: untypedInt, num: float64(int(v.num) << n)}
 	}
 }
 func (v Value) opBitRsh(b Value) Value {
 	t := v.t // a shift keeps the type of its left operand
+	n := shiftCount(b)
 	switch t {
 	case TypeFloat64:
-		return Value{t: t, num: float64(int(v.num) >> int(b.num))}
+		return Value{t: t, num: float64(int(v.num) >> n)}
 	case TypeInt32:
-		return Value{t: t, num: float64(int32(v.num) >> int32(b.num))}
+		return Value{t: t, num: float64(int32(v.num) >> n)}
 	case TypeUint32:
-		return Value{t: t, num: float64(uint32(v.num) >> uint32(b.num))}
+		return Value{t: t, num: float64(uint32(v.num) >> n)}
 	case TypeInt8:
-		return Value{t: t, num: float64(int8(v.num) >> int8(b.num))}
+		return Value{t: t, num: float64(int8(v.num) >> n)}
 	case TypeUint8:
-		return Value{t: t, num: float64(byte(v.num) >> byte(b.num))}
+		return Value{t: t, num: float64(byte(v.num) >> n)}
 	default:
-		return Value{t: untypedInt, num: float64(int(v.num) >> int(b.num))}
+		return Value{t: untypedInt, num: float64(int(v.num) >> n)}
 	}
 }
 func (v Value) opBitAnd(b Value) Value {
